@@ -135,7 +135,10 @@ func (c serviceCodec) decodeArguments(method Method, decoder *io.Decoder) (args 
 		copy(paramTypes, parameters)
 	}
 	args = make([]interface{}, count)
-	decoder.AddReference(&args)
+	// the list takes its place in the reference numbering, but it cannot be
+	// referred to from inside itself: an argument that aliased the list would
+	// contain itself by value, which no encoder or formatter survives
+	decoder.AddReference(nil)
 	for i := 0; i < count; i++ {
 		args[i] = decoder.Read(paramTypes[i])
 	}
